@@ -96,8 +96,17 @@ def analyse(spec):
   T = len(an)
   par = P.TBRMMDesignParameters(n_test=T, iroas=1.0, sig_level=0.9)
   dg = D.TBRMMDiagnostics(np.array([p[1] for p in pre]), par)
-  dg.x = np.array([p[0] for p in pre])
   xt, yt = sum(p[0] for p in an) / T, sum(p[1] for p in an) / T
+  out['design_reused'] = spec['seed'] % 2 == 0
+  if out['design_reused']:
+    # the diagnostics object served another control group first (as the searches do), and that fit was read
+    try:
+      dg.x = np.array([p[0] for p in pre])[::-1] * 1.5 + 3.0
+      dg.tbrfit(xt * 1.5 + 3.0, yt)
+      dg.required_impact
+    except Exception:
+      pass
+  dg.x = np.array([p[0] for p in pre])
   fit = dg.tbrfit(xt, yt)
   sm = m.summary(level=0.9, tails=1, report='last')
   est, lo = float(sm['estimate'].iloc[0]), float(sm['lower'].iloc[0])
@@ -178,7 +187,7 @@ def run(tier):
                     'analysed as generated, row-shuffled, with each group split over more geos and with an unassigned geo added; '
                     'summaries for 4 random (level, tails, threshold, rescale) settings incl. levels below 1/2, report=all; the '
                     'posterior location / scale of every analysed day is compared with the exact rational model; the design-side '
-                    'tbrfit is compared with the analysis. non-trivial: every frame')
+                    'tbrfit is compared with the analysis (in half of the frames on a diagnostics object that served another control series first). non-trivial: every frame')
   ck.cov['correspondence'] = {'frames_model_vs_impl': len(terms), 'disagreements': len(bad)}
   ck.cov['distribution'] = {'reused_object': sum(1 for _, o in res if o.get('reused')), 'fresh_object': sum(1 for _, o in res if o.get('reused') is False)}
   ck.cov['known_finding_observations'] = known
